@@ -43,3 +43,8 @@ run C12 src/clikit/api/config/application_config.py 's/^        self\._dispatche
 run C12 src/clikit/api/event/pre_handle_event.py 's/^        self\._handled = handled$/        self._handled = bool(handled) if handled is not True and handled is not False else handled/'
 run C05 src/clikit/args/argv_args.py 's/^        argv = argv\[:\]$/        argv = list(argv)/'
 run C04 src/clikit/console_application.py 's/^            parsed_args = resolved_command.args$/            parsed_args = resolved_command.args  # of this run/'
+# added in the continuation session (C13 element loops, C06 mirrored lookups, C20 / C18 getters)
+run C13 src/clikit/ui/help/command_help.py 's/^        for option in options:$/        for option in options:  # one line each/'
+run C13 src/clikit/ui/help/command_help.py 's/^        for argument in arguments:$/        for arg in arguments:/; s/^            self\._render_argument(layout, argument)$/            self._render_argument(layout, arg)/'
+run C06 src/clikit/api/args/format/args_format.py 's/^        if include_base and self\._base_format:$/        if include_base and self._base_format is not None:/'
+run C20 src/clikit/api/io/output.py 's/^        return self\._verbosity == DEBUG$/        return DEBUG == self._verbosity/'
